@@ -128,7 +128,7 @@ Qed.
 Ltac nt := unfold notouch, touches; simpl; repeat rewrite file_eqb_refl; simpl; try reflexivity.
 
 (* the part of save_core before the final rename *)
-Definition save_core_pre (e : env) (l : alist) (st : fs) : list op :=
+Definition save_core_pre (e : env) (l : store) (st : fs) : list op :=
   (match st Core with
    | Absent => []
    | Whole c => [OOpen CorePrev; OWrite CorePrev (Some c)]
@@ -159,23 +159,23 @@ Proof.
   repeat rewrite run_app. simpl. apply upd_same.
 Qed.
 
-Definition write_cmd_pre (e : env) (r : alist) : list op :=
-  [OOpen CmdTmp] ++ partials CmdTmp (chunks e) ++ [OWrite CmdTmp (Some (CRec r))].
+Definition write_cmd_pre (e : env) (r : alist) (nf : bool) : list op :=
+  [OOpen CmdTmp] ++ partials CmdTmp (chunks e) ++ [OWrite CmdTmp (Some (CRec r nf))].
 
-Lemma write_cmd_split : forall e r, atomic_cmd e = true ->
-  write_cmd e r = write_cmd_pre e r ++ [ORename CmdTmp Cmd].
+Lemma write_cmd_split : forall e r nf, atomic_cmd e = true ->
+  write_cmd e r nf = write_cmd_pre e r nf ++ [ORename CmdTmp Cmd].
 Proof.
-  intros e r H; unfold write_cmd, write_cmd_pre; rewrite H. repeat rewrite <- app_assoc. reflexivity.
+  intros e r nf H; unfold write_cmd, write_cmd_pre; rewrite H. repeat rewrite <- app_assoc. reflexivity.
 Qed.
 
-Lemma write_cmd_pre_notouch : forall e r f, f <> CmdTmp -> notouch f (write_cmd_pre e r) = true.
+Lemma write_cmd_pre_notouch : forall e r nf f, f <> CmdTmp -> notouch f (write_cmd_pre e r nf) = true.
 Proof.
-  intros e r f H. unfold write_cmd_pre. repeat rewrite notouch_app. rewrite partials_notouch by auto.
+  intros e r nf f H. unfold write_cmd_pre. repeat rewrite notouch_app. rewrite partials_notouch by auto.
   assert (A : file_eqb f CmdTmp = false) by (apply file_eqb_neq; auto).
   unfold notouch, touches; simpl; rewrite ?A; reflexivity.
 Qed.
 
-Lemma write_cmd_pre_tmp : forall e r st0, run_ops (write_cmd_pre e r) st0 CmdTmp = Whole (CRec r).
+Lemma write_cmd_pre_tmp : forall e r nf st0, run_ops (write_cmd_pre e r nf) st0 CmdTmp = Whole (CRec r nf).
 Proof. intros; unfold write_cmd_pre; repeat rewrite run_app; simpl; apply upd_same. Qed.
 
 Lemma flat_map_notouch : forall (A : Type) (blk : A -> list op) f l,
@@ -332,39 +332,47 @@ Section OneRename.
 End OneRename.
 
 (* ------------------------------------------------------------------ the invariant *)
-Definition core_ok (x : fstate) : Prop := x = Absent \/ exists l, x = Whole (CStore l).
-Definition cmd_ok (x : fstate) : Prop := x = Absent \/ exists r, x = Whole (CRec r).
+Definition core_ok (x : fstate) : Prop := x = Absent \/ exists s, x = Whole (CStore s).
+Definition cmd_ok (x : fstate) : Prop := x = Absent \/ exists r nf, x = Whole (CRec r nf).
 (* coredata.dat and cmd_line.txt are never torn *)
 Definition Inv (st : fs) : Prop := core_ok (st Core) /\ cmd_ok (st Cmd).
-Definition fixed (e : env) : Prop := atomic_cmd e = true /\ keep_cmd e = true.
+Definition fixed (e : env) : Prop := atomic_cmd e = true /\ keep_cmd e = true /\ core_first e = false.
 
 Lemma Inv_empty : Inv empty_fs.
 Proof. split; left; reflexivity. Qed.
 
-(* what a configuring run stores / records, as a function of the directory it finds *)
-Definition rec_of (x : fstate) : alist := match x with Whole (CRec r) => r | _ => [] end.
-Definition sl_store (D : alist) (st : fs) : alist :=
+(* what a configuring run stores / records, as a function of the directory it finds and the world *)
+Definition rec_of (x : fstate) : alist * bool :=
+  match x with Whole (CRec r nf) => (r, nf) | _ => ([], false) end.
+Definition sl_store (w : world) (D : alist) (nf : bool) (st : fs) : store :=
   match st Core with
-  | Whole (CStore l) => l ++ D
-  | _ => match st Cmd with Whole (CRec r) => r ++ D | _ => D end
+  | Whole (CStore s) => override s D
+  | _ => match st Cmd with
+         | Whole (CRec r nfr) => resolve w (nf || nfr) (r ++ D)
+         | _ => resolve w nf D
+         end
   end.
-Definition sl_rec (D : alist) (st : fs) : alist :=
-  match st Cmd with Whole (CRec r) => r ++ D | _ => D end.
+Definition sl_rec (D : alist) (nf : bool) (st : fs) : alist * bool :=
+  match st Cmd with
+  | Whole (CRec r nfr) => (r ++ D, match st Core with Whole (CStore _) => nfr | _ => nf || nfr end)
+  | _ => (D, nf)
+  end.
 
-Lemma setup_like_Inv : forall e D st, Inv st ->
-  setup_like e D st = (mkdirs st ++ body e (sl_store D st) (sl_rec D st) st, Done).
+Lemma setup_like_Inv : forall e w D nf st, Inv st ->
+  setup_like e w D nf st =
+  (mkdirs st ++ body e (sl_store w D nf st) (fst (sl_rec D nf st)) (snd (sl_rec D nf st)) st, Done).
 Proof.
-  intros e D st [[Hc|[l Hc]] [Hm|[r Hm]]]; unfold setup_like, sl_store, sl_rec; rewrite Hc, Hm; reflexivity.
+  intros e w D nf st [[Hc|[l Hc]] [Hm|[r [n Hm]]]]; unfold setup_like, sl_store, sl_rec; rewrite Hc, Hm; reflexivity.
 Qed.
 
-Definition X0_of (e : env) (l : alist) (st : fs) : list op := mkdirs st ++ save_core_pre e l st.
-Definition X1_of (e : env) (r : alist) : list op := gen_ninja e ++ save_build e ++ write_cmd_pre e r.
+Definition X0_of (e : env) (l : store) (st : fs) : list op := mkdirs st ++ save_core_pre e l st.
+Definition X1_of (e : env) (r : alist) (nf : bool) : list op := gen_ninja e ++ save_build e ++ write_cmd_pre e r nf.
 
-Lemma body_shape : forall e l r st, atomic_cmd e = true ->
-  mkdirs st ++ body e l r st =
-  X0_of e l st ++ ORename CoreTmp Core :: X1_of e r ++ ORename CmdTmp Cmd :: intro (infos e).
+Lemma body_shape : forall e l r nf st, atomic_cmd e = true ->
+  mkdirs st ++ body e l r nf st =
+  X0_of e l st ++ ORename CoreTmp Core :: X1_of e r nf ++ ORename CmdTmp Cmd :: intro (infos e).
 Proof.
-  intros e l r st H. unfold body, X0_of, X1_of. rewrite save_core_split, (write_cmd_split e r H).
+  intros e l r nf st H. unfold body, X0_of, X1_of. rewrite save_core_split, (write_cmd_split e r nf H).
   repeat rewrite <- app_assoc. simpl. reflexivity.
 Qed.
 
@@ -374,9 +382,9 @@ Proof.
   intros. unfold X0_of. rewrite notouch_app, mkdirs_notouch, save_core_pre_notouch; auto.
 Qed.
 
-Lemma X1_notouch : forall e r f,
+Lemma X1_notouch : forall e r nf f,
   f <> Ninja -> f <> NinjaTmp -> (forall i, f <> Dat i) -> f <> BuildDat -> f <> CmdTmp ->
-  notouch f (X1_of e r) = true.
+  notouch f (X1_of e r nf) = true.
 Proof.
   intros. unfold X1_of. rewrite !notouch_app, gen_ninja_notouch, save_build_notouch, write_cmd_pre_notouch; auto.
 Qed.
@@ -384,102 +392,125 @@ Qed.
 Lemma X0_tmp : forall e l st st0, run_ops (X0_of e l st) st0 CoreTmp = Whole (CStore l).
 Proof. intros. unfold X0_of. rewrite run_app. apply save_core_pre_tmp. Qed.
 
-Lemma X1_tmp : forall e r s, run_ops (X1_of e r) s CmdTmp = Whole (CRec r).
+Lemma X1_tmp : forall e r nf s, run_ops (X1_of e r nf) s CmdTmp = Whole (CRec r nf).
 Proof. intros. unfold X1_of. rewrite !run_app. apply write_cmd_pre_tmp. Qed.
 
 Ltac dd := try discriminate; try (intro; discriminate).
 
 (* every prefix of a configuring run: (coredata.dat, cmd_line.txt) is
    (before, before) | (after, before) | (after, after) *)
-Lemma body_views : forall e l r st k, atomic_cmd e = true ->
-  let s := run_ops (firstn k (mkdirs st ++ body e l r st)) st in
+Lemma body_views : forall e l r nf st k, atomic_cmd e = true ->
+  let s := run_ops (firstn k (mkdirs st ++ body e l r nf st)) st in
   (s Core = st Core /\ s Cmd = st Cmd) \/
   (s Core = Whole (CStore l) /\ s Cmd = st Cmd) \/
-  (s Core = Whole (CStore l) /\ s Cmd = Whole (CRec r)).
+  (s Core = Whole (CStore l) /\ s Cmd = Whole (CRec r nf)).
 Proof.
-  intros e l r st k H. rewrite body_shape by auto.
-  apply (two_renames_views CoreTmp Core CmdTmp Cmd (CStore l) (CRec r)); dd;
+  intros e l r nf st k H. rewrite body_shape by auto.
+  apply (two_renames_views CoreTmp Core CmdTmp Cmd (CStore l) (CRec r nf)); dd;
     try (apply X0_notouch; dd); try (apply X1_notouch; dd); try (apply intro_notouch; dd).
   - apply X0_tmp.
   - apply X1_tmp.
 Qed.
 
-Lemma body_final : forall e l r st, atomic_cmd e = true ->
-  run_ops (mkdirs st ++ body e l r st) st Core = Whole (CStore l) /\
-  run_ops (mkdirs st ++ body e l r st) st Cmd = Whole (CRec r).
+Lemma body_final : forall e l r nf st, atomic_cmd e = true ->
+  run_ops (mkdirs st ++ body e l r nf st) st Core = Whole (CStore l) /\
+  run_ops (mkdirs st ++ body e l r nf st) st Cmd = Whole (CRec r nf).
 Proof.
-  intros e l r st H. rewrite body_shape by auto.
-  apply (two_renames_final CoreTmp Core CmdTmp Cmd (CStore l) (CRec r)); dd;
+  intros e l r nf st H. rewrite body_shape by auto.
+  apply (two_renames_final CoreTmp Core CmdTmp Cmd (CStore l) (CRec r nf)); dd;
     try (apply X0_notouch; dd); try (apply X1_notouch; dd); try (apply intro_notouch; dd).
   - apply X0_tmp.
   - apply X1_tmp.
 Qed.
 
 (* ------------------------------------------------------------------ meson configure *)
-Definition cf_rec (D : alist) (st : fs) : alist :=
-  match st Cmd with Whole (CRec r) => r ++ D | _ => D end.
+Definition cf_rec (D : alist) (st : fs) : alist * bool :=
+  match st Cmd with Whole (CRec r nfr) => (r ++ D, nfr) | _ => (D, false) end.
+Definition saving (e : env) (s' : store) (st : fs) : list op := save_core e s' st ++ intro (cinfos e).
 
-Lemma configure_plan_cases : forall e D st, Inv st ->
-  configure_plan e D st = ([], MesonErr) \/ configure_plan e D st = ([], Done) \/
-  exists l, st Core = Whole (CStore l) /\
-    configure_plan e D st =
-      (write_cmd e (cf_rec D st) ++
-       (if dirty l D then save_core e (l ++ D) st ++ intro (cinfos e) else []), Done).
+Lemma configure_plan_cases : forall e D cc st, Inv st -> core_first e = false ->
+  configure_plan e D cc st = ([], MesonErr) \/ configure_plan e D cc st = ([], Done) \/
+  (exists s, D = [] /\ st Core = Whole (CStore s) /\ configure_plan e D cc st = (saving e (override s D) st, Done)) \/
+  exists s, st Core = Whole (CStore s) /\
+    configure_plan e D cc st =
+      (write_cmd e (fst (cf_rec D st)) (snd (cf_rec D st)) ++
+       (if dirty s D || cc then saving e (override s D) st else []), Done).
 Proof.
-  intros e D st [Hc Hm]. unfold configure_plan.
+  intros e D cc st [Hc Hm] Hf. unfold configure_plan, saving. rewrite Hf.
   destruct (st PrivDir); auto; destruct (st BuildDat); auto;
     destruct Hc as [Hc|[l Hc]]; rewrite Hc; auto;
-    (destruct D as [|d D]; [auto|]); right; right; exists l; split; auto;
-    unfold cf_rec; destruct Hm as [Hm|[r Hm]]; rewrite Hm; reflexivity.
+    (destruct D as [|d D]; [destruct cc; [right; right; left; exists l; auto|auto]|]);
+    right; right; right; exists l; split; auto;
+    unfold cf_rec; destruct Hm as [Hm|[r [n Hm]]]; rewrite Hm; reflexivity.
 Qed.
 
-Lemma configure_views : forall e D st l k, atomic_cmd e = true -> st Core = Whole (CStore l) ->
-  let ops := write_cmd e (cf_rec D st) ++ (if dirty l D then save_core e (l ++ D) st ++ intro (cinfos e) else []) in
-  let s := run_ops (firstn k ops) st in
-  (s Core = st Core /\ (s Cmd = st Cmd \/ s Cmd = Whole (CRec (cf_rec D st)))) \/
-  (dirty l D = true /\ s Core = Whole (CStore (l ++ D)) /\ s Cmd = Whole (CRec (cf_rec D st))).
+(* a run that only saves coredata.dat *)
+Lemma saving_views : forall e s' st k,
+  let s := run_ops (firstn k (saving e s' st)) st in
+  s Cmd = st Cmd /\ (s Core = st Core \/ s Core = Whole (CStore s')).
 Proof.
-  intros e D st l k H Hc ops s. subst ops s.
-  rewrite (write_cmd_split e _ H).
-  destruct (dirty l D) eqn:Hd.
-  - rewrite save_core_split. repeat rewrite <- app_assoc. cbn [app].
-    pose proof (two_renames_views CmdTmp Cmd CoreTmp Core (CRec (cf_rec D st)) (CStore (l ++ D))) as V.
+  intros e s' st k. unfold saving. rewrite save_core_split. repeat rewrite <- app_assoc. cbn [app].
+  apply (one_rename_views CoreTmp Core Cmd (CStore s')); dd;
+    try (apply save_core_pre_notouch; dd); try (apply intro_notouch; dd).
+  apply save_core_pre_tmp.
+Qed.
+
+Lemma saving_final : forall e s' st,
+  run_ops (saving e s' st) st Core = Whole (CStore s') /\ run_ops (saving e s' st) st Cmd = st Cmd.
+Proof.
+  intros e s' st. unfold saving. rewrite save_core_split. repeat rewrite <- app_assoc. cbn [app].
+  apply (one_rename_final CoreTmp Core Cmd (CStore s')); dd;
+    try (apply save_core_pre_notouch; dd); try (apply intro_notouch; dd).
+  apply save_core_pre_tmp.
+Qed.
+
+Lemma configure_views : forall e r nf s' st (b : bool) k, atomic_cmd e = true ->
+  let ops := write_cmd e r nf ++ (if b then saving e s' st else []) in
+  let s := run_ops (firstn k ops) st in
+  (s Core = st Core /\ (s Cmd = st Cmd \/ s Cmd = Whole (CRec r nf))) \/
+  (b = true /\ s Core = Whole (CStore s') /\ s Cmd = Whole (CRec r nf)).
+Proof.
+  intros e r nf s' st b k H ops s. subst ops s.
+  rewrite (write_cmd_split e _ _ H).
+  destruct b.
+  - unfold saving. rewrite save_core_split. repeat rewrite <- app_assoc. cbn [app].
+    pose proof (two_renames_views CmdTmp Cmd CoreTmp Core (CRec r nf) (CStore s')) as V.
     specialize (V ltac:(dd) ltac:(dd) ltac:(dd) ltac:(dd) ltac:(dd)
-                  (write_cmd_pre e (cf_rec D st)) (save_core_pre e (l ++ D) st) (intro (cinfos e)) st).
+                  (write_cmd_pre e r nf) (save_core_pre e s' st) (intro (cinfos e)) st).
     specialize (V ltac:(apply write_cmd_pre_notouch; dd) ltac:(apply write_cmd_pre_notouch; dd)
                   ltac:(apply save_core_pre_notouch; dd) ltac:(apply save_core_pre_notouch; dd)
                   ltac:(apply intro_notouch; dd) ltac:(apply intro_notouch; dd)
-                  (write_cmd_pre_tmp _ _ _) (save_core_pre_tmp _ _ _) k).
+                  (write_cmd_pre_tmp _ _ _ _) (save_core_pre_tmp _ _ _) k).
     simpl in V. destruct V as [[A B]|[[A B]|[A B]]].
     + left; split; auto.
     + left; split; auto.
     + right; auto.
   - rewrite app_nil_r.
-    pose proof (one_rename_views CmdTmp Cmd Core (CRec (cf_rec D st)) ltac:(dd) ltac:(dd) ltac:(dd)
-                  (write_cmd_pre e (cf_rec D st)) [] st
+    pose proof (one_rename_views CmdTmp Cmd Core (CRec r nf) ltac:(dd) ltac:(dd) ltac:(dd)
+                  (write_cmd_pre e r nf) [] st
                   ltac:(apply write_cmd_pre_notouch; dd) ltac:(apply write_cmd_pre_notouch; dd)
-                  eq_refl eq_refl (write_cmd_pre_tmp _ _ _) k) as V.
+                  eq_refl eq_refl (write_cmd_pre_tmp _ _ _ _) k) as V.
     simpl in V. left. tauto.
 Qed.
 
-Lemma configure_final : forall e D st l, atomic_cmd e = true -> st Core = Whole (CStore l) ->
-  let ops := write_cmd e (cf_rec D st) ++ (if dirty l D then save_core e (l ++ D) st ++ intro (cinfos e) else []) in
-  run_ops ops st Core = Whole (CStore (if dirty l D then l ++ D else l)) /\
-  run_ops ops st Cmd = Whole (CRec (cf_rec D st)).
+Lemma configure_final : forall e r nf s0 s' st (b : bool), atomic_cmd e = true -> st Core = Whole (CStore s0) ->
+  let ops := write_cmd e r nf ++ (if b then saving e s' st else []) in
+  run_ops ops st Core = Whole (CStore (if b then s' else s0)) /\
+  run_ops ops st Cmd = Whole (CRec r nf).
 Proof.
-  intros e D st l H Hc ops. subst ops.
-  rewrite (write_cmd_split e _ H).
-  destruct (dirty l D) eqn:Hd.
-  - rewrite save_core_split. repeat rewrite <- app_assoc. cbn [app].
+  intros e r nf s0 s' st b H Hc ops. subst ops.
+  rewrite (write_cmd_split e _ _ H).
+  destruct b.
+  - unfold saving. rewrite save_core_split. repeat rewrite <- app_assoc. cbn [app].
     apply and_comm.
-    apply (two_renames_final CmdTmp Cmd CoreTmp Core (CRec (cf_rec D st)) (CStore (l ++ D))); dd;
+    apply (two_renames_final CmdTmp Cmd CoreTmp Core (CRec r nf) (CStore s')); dd;
       try (apply write_cmd_pre_notouch; dd); try (apply save_core_pre_notouch; dd);
       try (apply intro_notouch; dd).
     + apply write_cmd_pre_tmp.
     + intro; apply save_core_pre_tmp.
   - rewrite app_nil_r.
-    destruct (one_rename_final CmdTmp Cmd Core (CRec (cf_rec D st))) with
-      (X0 := write_cmd_pre e (cf_rec D st)) (X1 := @nil op) (st := st) as [A B]; dd;
+    destruct (one_rename_final CmdTmp Cmd Core (CRec r nf)) with
+      (X0 := write_cmd_pre e r nf) (X1 := @nil op) (st := st) as [A B]; dd;
       try (apply write_cmd_pre_notouch; dd); try reflexivity; try apply write_cmd_pre_tmp.
     rewrite A, B, Hc; auto.
 Qed.
@@ -561,32 +592,26 @@ Proof.
 Qed.
 
 (* ------------------------------------------------------------------ what the follow-up reports *)
-Definition vals (s : fs) : alist := sl_store [] s.
+Definition vals (w : world) (s : fs) : store := sl_store w [] false s.
 
-Lemma vals_view : forall s s', s Core = s' Core -> s Cmd = s' Cmd -> vals s = vals s'.
-Proof. intros s s' A B. unfold vals, sl_store. rewrite A, B. reflexivity. Qed.
+Lemma vals_view : forall w s s', s Core = s' Core -> s Cmd = s' Cmd -> vals w s = vals w s'.
+Proof. intros w s s' A B. unfold vals, sl_store. rewrite A, B. reflexivity. Qed.
 
-Lemma vals_core : forall s l, s Core = Whole (CStore l) -> vals s = l ++ [].
-Proof. intros s l A. unfold vals, sl_store. rewrite A. reflexivity. Qed.
+Lemma vals_core : forall w s f key, s Core = Whole (CStore f) -> vals w s key = f key.
+Proof. intros w s f key A. unfold vals, sl_store. rewrite A. reflexivity. Qed.
 
-Lemma sl_store_view : forall D s s', s Core = s' Core -> s Cmd = s' Cmd -> sl_store D s = sl_store D s'.
-Proof. intros D s s' A B. unfold sl_store. rewrite A, B. reflexivity. Qed.
-
-Lemma sl_rec_view : forall D s s', s Core = s' Core -> s Cmd = s' Cmd -> sl_rec D s = sl_rec D s'.
-Proof. intros D s s' A B. unfold sl_rec. rewrite B. reflexivity. Qed.
-
-Lemma followup_plan : forall e st, Inv st ->
-  plan_of e (followup st) st = setup_like e [] st.
+Lemma followup_plan : forall e w st, Inv st ->
+  plan_of e w (followup st) st = setup_like e w [] false st.
 Proof.
-  intros e st [[Hc|[l Hc]] _]; unfold followup; rewrite Hc; simpl; [rewrite Hc|]; reflexivity.
+  intros e w st [[Hc|[l Hc]] _]; unfold followup; rewrite Hc; simpl; [rewrite Hc|]; reflexivity.
 Qed.
 
-Lemma recover_Inv : forall e st, atomic_cmd e = true -> Inv st ->
-  fst (recover e st) = Done /\ reported e st = Some (vals st).
+Lemma recover_Inv : forall e w st, atomic_cmd e = true -> Inv st ->
+  fst (recover e w st) = Done /\ reported e w st = Some (vals w st).
 Proof.
-  intros e st Ha HI. unfold reported, recover, exec, ops_of.
+  intros e w st Ha HI. unfold reported, recover, exec, ops_of.
   rewrite followup_plan, setup_like_Inv by auto. cbn [fst snd]. split; auto.
-  unfold stored. destruct (body_final e (sl_store [] st) (sl_rec [] st) st Ha) as [A _].
+  unfold stored. destruct (body_final e (sl_store w [] false st) (fst (sl_rec [] false st)) (snd (sl_rec [] false st)) st Ha) as [A _].
   rewrite A. reflexivity.
 Qed.
 
@@ -594,67 +619,105 @@ Qed.
 Lemma firstn_nil' : forall (A : Type) k, firstn k (@nil A) = [].
 Proof. intros A [|k]; reflexivity. Qed.
 
-(* a small algebra of "the killed state s looks, to the follow-up, like st or like fin" *)
-Definition old_new (st fin s : fs) : Prop :=
-  Inv s /\ forall key, value (vals s) key = value (vals st) key \/ value (vals s) key = value (vals fin) key.
+(* "the killed state s looks, to the follow-up run in world w, like st or like fin" *)
+Definition old_new (w : world) (st fin s : fs) : Prop :=
+  Inv s /\ forall key, vals w s key = vals w st key \/ vals w s key = vals w fin key.
 
-Lemma old_new_same : forall st fin s, Inv st -> s Core = st Core -> s Cmd = st Cmd -> old_new st fin s.
+Lemma old_new_same : forall w st fin s, Inv st -> s Core = st Core -> s Cmd = st Cmd -> old_new w st fin s.
 Proof.
-  intros st fin s [I1 I2] A B. split.
+  intros w st fin s [I1 I2] A B. split.
   - split; [rewrite A|rewrite B]; auto.
-  - intro key. left. rewrite (vals_view s st A B). reflexivity.
+  - intro key. left. rewrite (vals_view w s st A B). reflexivity.
 Qed.
 
-Lemma old_new_fin_core : forall st fin s l, cmd_ok (s Cmd) ->
-  s Core = Whole (CStore l) -> fin Core = Whole (CStore l) -> old_new st fin s.
+Lemma old_new_fin_core : forall w st fin s l, cmd_ok (s Cmd) ->
+  s Core = Whole (CStore l) -> fin Core = Whole (CStore l) -> old_new w st fin s.
 Proof.
-  intros st fin s l Hm A B. split.
+  intros w st fin s l Hm A B. split.
   - split; auto. right; exists l; auto.
-  - intro key. right. rewrite (vals_core s l A), (vals_core fin l B). reflexivity.
+  - intro key. right. rewrite (vals_core w s l key A), (vals_core w fin l key B). reflexivity.
 Qed.
 
-Lemma setup_like_old_new : forall e D st k, atomic_cmd e = true -> Inv st ->
-  let ops := fst (setup_like e D st) in
-  old_new st (run_ops ops st) (run_ops (firstn k ops) st).
+Lemma setup_like_old_new : forall e w D nf st k, atomic_cmd e = true -> Inv st ->
+  let ops := fst (setup_like e w D nf st) in
+  old_new w st (run_ops ops st) (run_ops (firstn k ops) st).
 Proof.
-  intros e D st k Ha HI ops. subst ops. rewrite setup_like_Inv by auto. cbn [fst].
-  destruct (body_final e (sl_store D st) (sl_rec D st) st Ha) as [F1 F2].
-  destruct (body_views e (sl_store D st) (sl_rec D st) st k Ha) as [[A B]|[[A B]|[A B]]].
+  intros e w D nf st k Ha HI ops. subst ops. rewrite setup_like_Inv by auto. cbn [fst].
+  destruct (body_final e (sl_store w D nf st) (fst (sl_rec D nf st)) (snd (sl_rec D nf st)) st Ha) as [F1 F2].
+  destruct (body_views e (sl_store w D nf st) (fst (sl_rec D nf st)) (snd (sl_rec D nf st)) st k Ha) as [[A B]|[[A B]|[A B]]].
   - apply old_new_same; auto.
   - eapply old_new_fin_core; eauto. rewrite B. apply HI.
-  - eapply old_new_fin_core; eauto. rewrite B. right; eexists; reflexivity.
+  - eapply old_new_fin_core; eauto. rewrite B. right; eexists; eexists; reflexivity.
 Qed.
 
-Lemma configure_old_new : forall e D st k, atomic_cmd e = true -> Inv st ->
-  let ops := fst (configure_plan e D st) in
-  old_new st (run_ops ops st) (run_ops (firstn k ops) st).
+Lemma configure_old_new : forall e w D cc st k, atomic_cmd e = true -> core_first e = false -> Inv st ->
+  let ops := fst (configure_plan e D cc st) in
+  old_new w st (run_ops ops st) (run_ops (firstn k ops) st).
 Proof.
-  intros e D st k Ha HI ops. subst ops.
-  destruct (configure_plan_cases e D st HI) as [E|[E|[l [Hc E]]]]; rewrite E; cbn [fst].
+  intros e w D cc st k Ha Hf HI ops. subst ops.
+  destruct (configure_plan_cases e D cc st HI Hf) as [E|[E|[[s0 [_ [Hc E]]]|[s0 [Hc E]]]]]; rewrite E; cbn [fst].
   - rewrite firstn_nil'. apply old_new_same; auto.
   - rewrite firstn_nil'. apply old_new_same; auto.
-  - destruct (configure_final e D st l Ha Hc) as [F1 F2].
-    destruct (configure_views e D st l k Ha Hc) as [[A B]|[Hd [A B]]].
+  - destruct (saving_final e (override s0 D) st) as [F1 F2].
+    destruct (saving_views e (override s0 D) st k) as [B [A|A]].
+    + apply old_new_same; auto.
+    + eapply old_new_fin_core; eauto. rewrite B. apply HI.
+  - set (b := dirty s0 D || cc).
+    destruct (configure_final e (fst (cf_rec D st)) (snd (cf_rec D st)) s0 (override s0 D) st b Ha Hc) as [F1 F2].
+    destruct (configure_views e (fst (cf_rec D st)) (snd (cf_rec D st)) (override s0 D) st b k Ha) as [[A B]|[Hd [A B]]].
     + split.
-      * split; [rewrite A; apply HI|]. destruct B as [B|B]; rewrite B; [apply HI|right; eexists; reflexivity].
-      * intro key. left. rewrite Hc in A. rewrite (vals_core _ l A), (vals_core st l Hc). reflexivity.
-    + rewrite Hd in *. eapply old_new_fin_core; eauto. rewrite B. right; eexists; reflexivity.
+      * split; [rewrite A; apply HI|]. destruct B as [B|B]; rewrite B; [apply HI|right; eexists; eexists; reflexivity].
+      * intro key. left. rewrite Hc in A. rewrite (vals_core w _ s0 key A), (vals_core w st s0 key Hc). reflexivity.
+    + rewrite Hd in *. eapply old_new_fin_core; eauto. rewrite B. right; eexists; eexists; reflexivity.
 Qed.
 
-(* the guard under which --wipe with new -D settings is old-or-new: for the keys being set,
-   coredata.dat and cmd_line.txt agree (they do unless an earlier command was killed) *)
-Definition coupled_on (D : alist) (st : fs) : bool :=
-  match st Core with
-  | Whole (CStore l) => forallb (fun kv => value l (fst kv) =? value (rec_of (st Cmd)) (fst kv)) D
-  | _ => true
-  end.
+(* ------------------------------------------------------------------ --wipe *)
+Lemma resolve_app_some : forall w b x D key v, alookup key D = Some v -> resolve w b (x ++ D) key = v.
+Proof. intros. unfold resolve. rewrite alookup_app, H. reflexivity. Qed.
 
-Lemma alookup_In : forall k l v, alookup k l = Some v -> exists v', In (k, v') l.
+Lemma resolve_app_none : forall w b x D key, alookup key D = None ->
+  resolve w b (x ++ D) key = resolve w b x key.
+Proof. intros. unfold resolve. rewrite alookup_app, H. reflexivity. Qed.
+
+Lemma resolve_some : forall w b r key v, alookup key r = Some v -> resolve w b r key = v.
+Proof. intros. unfold resolve. rewrite H. reflexivity. Qed.
+
+Definition base (w : world) (b : bool) (key : key) : val :=
+  if b then match alookup key (mfile w) with Some v => v | None => decl w key end else decl w key.
+
+Lemma resolve_none : forall w b r key, alookup key r = None -> resolve w b r key = base w b key.
+Proof. intros. unfold resolve, base. rewrite H. reflexivity. Qed.
+
+Lemma alookup_In_val : forall k l v, alookup k l = Some v -> In (k, v) l.
 Proof.
   intros k l; induction l as [|[k' v'] l IH]; intros v H; simpl in H; [discriminate|].
   destruct (alookup k l) eqn:E.
-  - destruct (IH _ eq_refl) as [w Hw]. exists w; right; auto.
-  - destruct (k =? k') eqn:K; [|discriminate]. apply N.eqb_eq in K; subst. exists v'; left; auto.
+  - inversion H; subst. right; auto.
+  - destruct (k =? k') eqn:K; [|discriminate]. apply N.eqb_eq in K; subst. inversion H; subst. left; auto.
+Qed.
+
+Lemma alookup_In_key : forall k l v, alookup k l = Some v -> In k (map fst l).
+Proof. intros k l v H. apply alookup_In_val in H. apply (in_map fst) in H. exact H. Qed.
+
+(* the keys a --wipe gives a new source for: its -D settings, and the machine file if it is given only now *)
+Definition check_keys (w : world) (D : alist) (nf nfr : bool) : list key :=
+  map fst D ++ (if nf && negb nfr then map fst (mfile w) else []).
+(* the guard under which --wipe is old-or-new: for those keys coredata.dat holds what cmd_line.txt and
+   the current world reproduce *)
+Definition coupled_on (w : world) (D : alist) (nf : bool) (st : fs) : bool :=
+  match st Core with
+  | Whole (CStore s) =>
+      forallb (fun k => s k =? resolve w (snd (rec_of (st Cmd))) (fst (rec_of (st Cmd))) k)
+              (check_keys w D nf (snd (rec_of (st Cmd))))
+  | _ => true
+  end.
+
+Lemma coupled_key : forall w D nf st s key, st Core = Whole (CStore s) -> coupled_on w D nf st = true ->
+  In key (check_keys w D nf (snd (rec_of (st Cmd)))) ->
+  s key = resolve w (snd (rec_of (st Cmd))) (fst (rec_of (st Cmd))) key.
+Proof.
+  intros w D nf st s key Hc Hg Hin. unfold coupled_on in Hg. rewrite Hc in Hg.
+  rewrite forallb_forall in Hg. specialize (Hg _ Hin). apply N.eqb_eq in Hg. exact Hg.
 Qed.
 
 Lemma dels_Inv : forall e order st, keep_cmd e = true -> Inv st ->
@@ -665,82 +728,88 @@ Proof.
   split; [destruct B as [B|B]; rewrite B; [exact Hc|left; reflexivity] | rewrite A; exact Hm].
 Qed.
 
-Lemma wipe_plan_fixed : forall e D order st, keep_cmd e = true -> Inv st ->
-  wipe_plan e D order st = ([], MesonErr) \/
-  wipe_plan e D order st =
-    (deletions e order st ++ fst (setup_like e (rec_of (st Cmd) ++ D) (run_ops (deletions e order st) st)), Done).
+Lemma wipe_plan_fixed : forall e w D nf order st, keep_cmd e = true -> Inv st ->
+  wipe_plan e w D nf order st = ([], MesonErr) \/
+  wipe_plan e w D nf order st =
+    (deletions e order st ++
+     fst (setup_like e w (fst (rec_of (st Cmd)) ++ D) (nf || snd (rec_of (st Cmd))) (run_ops (deletions e order st) st)), Done).
 Proof.
-  intros e D order st Hk HI. pose proof (dels_Inv e order st Hk HI) as I1.
+  intros e w D nf order st Hk HI. pose proof (dels_Inv e order st Hk HI) as I1.
   destruct HI as [Hc Hm]. unfold wipe_plan. rewrite Hk.
   destruct (st PrivDir); auto; right;
-    (destruct Hm as [Hm|[r Hm]]; rewrite Hm; cbn [read_cmd rec_of app]; rewrite app_nil_r;
-     rewrite (setup_like_Inv _ _ _ I1); reflexivity).
-Qed.
-
-Lemma coupled_key : forall D st l key v, st Core = Whole (CStore l) -> coupled_on D st = true ->
-  alookup key D = Some v -> value l key = value (rec_of (st Cmd)) key.
-Proof.
-  intros D st l key v Hc Hg Hk. unfold coupled_on in Hg. rewrite Hc in Hg.
-  destruct (alookup_In _ _ _ Hk) as [v' Hin].
-  rewrite forallb_forall in Hg. specialize (Hg _ Hin). simpl in Hg. apply N.eqb_eq in Hg. exact Hg.
+    (destruct Hm as [Hm|[r [n Hm]]]; rewrite Hm; cbn [read_cmd rec_of app fst snd]; rewrite app_nil_r;
+     rewrite (setup_like_Inv _ _ _ _ _ I1); reflexivity).
 Qed.
 
 (* the window of --wipe in which coredata.dat is gone and the new one is not written yet *)
-Lemma wipe_window_vals : forall D st st1 fin s,
-  Inv st -> coupled_on D st = true ->
+Lemma wipe_window_vals : forall w D nf st st1 fin s,
+  Inv st -> coupled_on w D nf st = true ->
   s Core = Absent -> s Cmd = st Cmd ->
   st1 Core = Absent -> st1 Cmd = st Cmd ->
-  fin Core = Whole (CStore (sl_store (rec_of (st Cmd) ++ D) st1)) ->
-  forall key, value (vals s) key = value (vals st) key \/ value (vals s) key = value (vals fin) key.
+  fin Core = Whole (CStore (sl_store w (fst (rec_of (st Cmd)) ++ D) (nf || snd (rec_of (st Cmd))) st1)) ->
+  forall key, vals w s key = vals w st key \/ vals w s key = vals w fin key.
 Proof.
-  intros D st st1 fin s [Hc Hm] Hg A B A1 B1 F key.
-  rewrite (vals_core fin _ F).
-  assert (Vs : vals s = rec_of (st Cmd) ++ []).
-  { unfold vals, sl_store. rewrite A, B. destruct Hm as [Hm|[r Hm]]; rewrite Hm; reflexivity. }
-  assert (V1 : forall key, value (sl_store (rec_of (st Cmd) ++ D) st1) key =
-                           match alookup key D with Some v => v | None => value (rec_of (st Cmd)) key end).
-  { intro q. unfold sl_store. rewrite A1, B1.
-    destruct Hm as [Hm|[r Hm]]; rewrite Hm; cbn [rec_of app].
-    - unfold value at 1. destruct (alookup q D); reflexivity.
-    - rewrite (value_app q r (r ++ D)), alookup_app. destruct (alookup q D); auto.
-      unfold value. destruct (alookup q r); reflexivity. }
-  rewrite Vs, !app_nil_r, V1.
-  destruct (alookup key D) as [v|] eqn:K; [|right; reflexivity].
-  left. destruct Hc as [Hc|[l Hc]].
-  - unfold vals, sl_store. rewrite Hc. destruct Hm as [Hm|[r Hm]]; rewrite Hm; cbn [rec_of]; rewrite ?app_nil_r; reflexivity.
-  - rewrite (vals_core st l Hc), app_nil_r. symmetry. eapply coupled_key; eauto.
+  intros w D nf st st1 fin s [Hc Hm] Hg A B A1 B1 F key.
+  destruct Hc as [Hc|[s0 Hc]].
+  { left. rewrite (vals_view w s st); auto. congruence. }
+  rewrite (vals_core w fin _ key F), (vals_core w st s0 key Hc).
+  pose proof (coupled_key w D nf st s0 key Hc Hg) as G.
+  unfold vals, sl_store. rewrite A, B, A1, B1.
+  destruct Hm as [Hm|[r [nfr Hm]]]; rewrite Hm in *; cbn [rec_of fst snd app orb] in *.
+  - (* no cmd_line.txt *)
+    unfold check_keys in G. cbn [negb] in G. rewrite andb_true_r in G.
+    destruct (alookup key D) as [v|] eqn:K.
+    + left. symmetry. apply G. apply in_or_app; left. eapply alookup_In_key; eauto.
+    + rewrite (resolve_none w _ D key K), (resolve_none w false [] key eq_refl).
+      rewrite orb_false_r. destruct nf; [|right; reflexivity].
+      destruct (alookup key (mfile w)) as [mv|] eqn:M; [|right; unfold base; rewrite M; reflexivity].
+      left. rewrite <- (resolve_none w false [] key eq_refl). symmetry. apply G.
+      apply in_or_app; right. eapply alookup_In_key; eauto.
+  - rewrite app_nil_r.
+    destruct (alookup key D) as [v|] eqn:K.
+    + left. symmetry. apply G. unfold check_keys. apply in_or_app; left. eapply alookup_In_key; eauto.
+    + destruct (alookup key r) as [v'|] eqn:R.
+      * right. rewrite (resolve_some w _ r key v' R). symmetry. apply resolve_some.
+        rewrite !alookup_app, K, R. reflexivity.
+      * assert (R2 : alookup key (r ++ (r ++ D)) = None) by (rewrite !alookup_app, K, R; reflexivity).
+        rewrite (resolve_none w _ r key R), (resolve_none w _ _ key R2).
+        destruct nfr; [rewrite orb_true_r; right; reflexivity|].
+        rewrite !orb_false_r. destruct nf; [|right; reflexivity].
+        destruct (alookup key (mfile w)) as [mv|] eqn:M; [|right; unfold base; rewrite M; reflexivity].
+        left. rewrite <- (resolve_none w false r key R). symmetry. apply G.
+        unfold check_keys. cbn [negb andb]. apply in_or_app; right. eapply alookup_In_key; eauto.
 Qed.
 
-Lemma wipe_old_new : forall e D order st k, fixed e -> Inv st -> coupled_on D st = true ->
-  let ops := fst (wipe_plan e D order st) in
-  old_new st (run_ops ops st) (run_ops (firstn k ops) st).
+Lemma wipe_old_new : forall e w D nf order st k, fixed e -> Inv st -> coupled_on w D nf st = true ->
+  let ops := fst (wipe_plan e w D nf order st) in
+  old_new w st (run_ops ops st) (run_ops (firstn k ops) st).
 Proof.
-  intros e D order st k [Ha Hk] HI Hg ops. subst ops.
-  destruct (wipe_plan_fixed e D order st Hk HI) as [E|E]; rewrite E; cbn [fst].
+  intros e w D nf order st k [Ha [Hk Hf]] HI Hg ops. subst ops.
+  destruct (wipe_plan_fixed e w D nf order st Hk HI) as [E|E]; rewrite E; cbn [fst].
   - rewrite firstn_nil'. apply old_new_same; auto.
   - set (del := deletions e order st). set (st1 := run_ops del st).
-    set (D' := rec_of (st Cmd) ++ D).
+    set (D' := fst (rec_of (st Cmd)) ++ D). set (nf' := nf || snd (rec_of (st Cmd))).
     assert (Hdel : forallb is_del del = true) by (apply deletions_is_del; auto).
     assert (I1 : Inv st1) by (apply dels_Inv; auto).
-    set (ops2 := fst (setup_like e D' st1)).
-    assert (F : run_ops (del ++ ops2) st Core = Whole (CStore (sl_store D' st1))).
+    set (ops2 := fst (setup_like e w D' nf' st1)).
+    assert (F : run_ops (del ++ ops2) st Core = Whole (CStore (sl_store w D' nf' st1))).
     { rewrite run_app. fold st1. subst ops2. rewrite setup_like_Inv by auto. cbn [fst].
-      apply (body_final e _ _ st1 Ha). }
+      apply (body_final e _ _ _ st1 Ha). }
     (* the state after all deletions, as the follow-up sees it *)
     assert (W : forall s, s Cmd = st Cmd ->
                 (s Core = st Core \/ (s Core = Absent /\ st1 Core = Absent)) -> Inv s ->
-                old_new st (run_ops (del ++ ops2) st) s).
+                old_new w st (run_ops (del ++ ops2) st) s).
     { intros s B [A|[A A1]] Is.
       - apply old_new_same; auto.
       - split; auto.
-        apply (wipe_window_vals D st st1 _ s HI Hg A B A1); auto.
+        apply (wipe_window_vals w D nf st st1 _ s HI Hg A B A1); auto.
         subst st1. apply (dels_run del st Hdel). }
     destruct (prefix_app_cases del ops2 k st) as [[k' Ek]|[k' Ek]]; rewrite Ek; clear Ek.
     + destruct (dels_prefix del k' st Hdel) as [B A]. fold st1 in A.
       apply W; auto.
       destruct HI as [Hc Hm]. split; [|rewrite B; auto].
       destruct A as [A|[A _]]; rewrite A; auto. left; reflexivity.
-    + fold st1. pose proof (setup_like_old_new e D' st1 k' Ha I1) as [Is V]. fold ops2 in Is, V.
+    + fold st1. pose proof (setup_like_old_new e w D' nf' st1 k' Ha I1) as [Is V]. fold ops2 in Is, V.
       split; auto. intro key.
       destruct (V key) as [V1|V2].
       * (* looks like the fully wiped directory *)
@@ -751,53 +820,54 @@ Proof.
 Qed.
 
 (* ------------------------------------------------------------------ all commands *)
-Definition guard (c : cmd) (st : fs) : bool :=
-  match c with Wipe D _ => coupled_on D st | _ => true end.
+Definition guard (w : world) (c : cmd) (st : fs) : bool :=
+  match c with Wipe D nf _ => coupled_on w D nf st | _ => true end.
 
-Lemma cmd_old_new : forall e c st k, fixed e -> Inv st -> guard c st = true ->
-  old_new st (exec e c st) (crash e k c st).
+Lemma cmd_old_new : forall e w c st k, fixed e -> Inv st -> guard w c st = true ->
+  old_new w st (exec e w c st) (crash e w k c st).
 Proof.
-  intros e c st k He HI Hg. unfold exec, crash, ops_of. destruct He as [Ha Hk].
-  destruct c as [D|D|D order|D]; cbn [plan_of].
+  intros e w c st k He HI Hg. unfold exec, crash, ops_of. pose proof He as [Ha [Hk Hf]].
+  destruct c as [D nf|D|D nf order|D cc]; cbn [plan_of].
   - destruct (exists_ (st Core)).
     + destruct D as [|d D].
       * cbn [fst]. rewrite firstn_nil'. apply old_new_same; auto.
       * apply configure_old_new; auto.
     + apply setup_like_old_new; auto.
   - apply setup_like_old_new; auto.
-  - apply wipe_old_new; auto. split; auto.
+  - apply wipe_old_new; auto.
   - apply configure_old_new; auto.
 Qed.
 
-Lemma wipe_prefix_Inv : forall e D order st k, fixed e -> Inv st ->
-  Inv (run_ops (firstn k (fst (wipe_plan e D order st))) st).
+Lemma wipe_prefix_Inv : forall e w D nf order st k, fixed e -> Inv st ->
+  Inv (run_ops (firstn k (fst (wipe_plan e w D nf order st))) st).
 Proof.
-  intros e D order st k [Ha Hk] HI.
-  destruct (wipe_plan_fixed e D order st Hk HI) as [E|E]; rewrite E; cbn [fst].
+  intros e w D nf order st k [Ha [Hk Hf]] HI.
+  destruct (wipe_plan_fixed e w D nf order st Hk HI) as [E|E]; rewrite E; cbn [fst].
   - rewrite firstn_nil'. exact HI.
   - set (del := deletions e order st).
     assert (Hdel : forallb is_del del = true) by (apply deletions_is_del; auto).
-    destruct (prefix_app_cases del (fst (setup_like e (rec_of (st Cmd) ++ D) (run_ops del st))) k st)
-      as [[k' Ek]|[k' Ek]]; rewrite Ek; clear Ek.
+    match goal with |- context [setup_like e w ?DD ?NN ?SS] =>
+      destruct (prefix_app_cases del (fst (setup_like e w DD NN SS)) k st) as [[k' Ek]|[k' Ek]] end;
+      rewrite Ek; clear Ek.
     + destruct (dels_prefix del k' st Hdel) as [B A]. destruct HI as [Hc Hm].
       split; [|rewrite B; auto]. destruct A as [A|[A _]]; rewrite A; auto. left; reflexivity.
     + apply setup_like_old_new; auto. apply dels_Inv; auto.
 Qed.
 
-Lemma crash_Inv : forall e c st k, fixed e -> Inv st -> Inv (crash e k c st).
+Lemma crash_Inv : forall e w c st k, fixed e -> Inv st -> Inv (crash e w k c st).
 Proof.
-  intros e c st k He HI.
-  destruct c as [D|D|D order|D].
-  - apply (cmd_old_new e (Setup D) st k He HI eq_refl).
-  - apply (cmd_old_new e (Reconf D) st k He HI eq_refl).
+  intros e w c st k He HI.
+  destruct c as [D nf|D|D nf order|D cc].
+  - apply (cmd_old_new e w (Setup D nf) st k He HI eq_refl).
+  - apply (cmd_old_new e w (Reconf D) st k He HI eq_refl).
   - unfold crash, ops_of. cbn [plan_of]. apply wipe_prefix_Inv; auto.
-  - apply (cmd_old_new e (Configure D) st k He HI eq_refl).
+  - apply (cmd_old_new e w (Configure D cc) st k He HI eq_refl).
 Qed.
 
-Lemma exec_is_crash : forall e c st, exec e c st = crash e (length (ops_of e c st)) c st.
+Lemma exec_is_crash : forall e w c st, exec e w c st = crash e w (length (ops_of e w c st)) c st.
 Proof. intros; unfold exec, crash; rewrite firstn_all; reflexivity. Qed.
 
-Lemma exec_Inv : forall e c st, fixed e -> Inv st -> Inv (exec e c st).
+Lemma exec_Inv : forall e w c st, fixed e -> Inv st -> Inv (exec e w c st).
 Proof. intros; rewrite exec_is_crash; apply crash_Inv; auto. Qed.
 
 Lemma history_Inv_from : forall e h st0, fixed e -> forallb meson_event h = true -> Inv st0 ->
@@ -805,151 +875,150 @@ Lemma history_Inv_from : forall e h st0, fixed e -> forallb meson_event h = true
 Proof.
   intros e h; induction h as [|ev h IH]; intros st0 He Hm HI; [exact HI|].
   simpl in Hm. apply andb_true_iff in Hm as [H1 H2]. simpl. apply IH; auto.
-  destruct ev as [c|c k|f t]; simpl in *; [apply exec_Inv|apply crash_Inv|discriminate]; auto.
+  destruct ev as [w c|w c k|f t]; simpl in *; [apply exec_Inv|apply crash_Inv|discriminate]; auto.
 Qed.
 
-(* every directory that meson commands — completed or killed anywhere — can leave behind *)
+(* every directory that meson commands — completed or killed anywhere, in worlds that change arbitrarily
+   between them — can leave behind *)
 Theorem history_Inv : forall e h, fixed e -> forallb meson_event h = true -> Inv (run_history e h).
 Proof. intros; apply history_Inv_from; auto using Inv_empty. Qed.
 
 (* ------------------------------------------------------------------ the property's clauses *)
-Definition old_or_new (e : env) (st : fs) (c : cmd) (k : nat) : Prop :=
+Definition old_or_new (e : env) (w : world) (st : fs) (c : cmd) (k : nat) : Prop :=
   exists vo vn vk,
-    reported e st = Some vo /\ reported e (exec e c st) = Some vn /\
-    reported e (crash e k c st) = Some vk /\
-    forall key, value vk key = value vo key \/ value vk key = value vn key.
+    reported e w st = Some vo /\ reported e w (exec e w c st) = Some vn /\
+    reported e w (crash e w k c st) = Some vk /\
+    forall key, vk key = vo key \/ vk key = vn key.
 
-Theorem recover_succeeds : forall e h c k, fixed e -> forallb meson_event h = true ->
-  fst (recover e (crash e k c (run_history e h))) = Done.
+Theorem recover_succeeds : forall e h w c k, fixed e -> forallb meson_event h = true ->
+  fst (recover e w (crash e w k c (run_history e h))) = Done.
 Proof.
-  intros e h c k He Hm. apply recover_Inv; [apply He|].
+  intros e h w c k He Hm. apply recover_Inv; [apply He|].
   apply crash_Inv; auto. apply history_Inv; auto.
 Qed.
 
-Theorem old_or_new_guarded : forall e h c k, fixed e -> forallb meson_event h = true ->
-  guard c (run_history e h) = true -> old_or_new e (run_history e h) c k.
+Theorem old_or_new_guarded : forall e h w c k, fixed e -> forallb meson_event h = true ->
+  guard w c (run_history e h) = true -> old_or_new e w (run_history e h) c k.
 Proof.
-  intros e h c k He Hm Hg. set (st := run_history e h).
+  intros e h w c k He Hm Hg. set (st := run_history e h).
   assert (HI : Inv st) by (apply history_Inv; auto).
-  destruct (cmd_old_new e c st k He HI Hg) as [Is V].
-  exists (vals st), (vals (exec e c st)), (vals (crash e k c st)).
+  destruct (cmd_old_new e w c st k He HI Hg) as [Is V].
+  exists (vals w st), (vals w (exec e w c st)), (vals w (crash e w k c st)).
   repeat split; try apply recover_Inv; try apply He; auto using exec_Inv.
 Qed.
 
-(* ------------------------------------------------------------------ histories of completed commands: coredata.dat and cmd_line.txt agree *)
-Definition Coupled (st : fs) : Prop :=
-  forall l, st Core = Whole (CStore l) -> forall key, value l key = value (rec_of (st Cmd)) key.
-Definition Good (st : fs) : Prop :=
-  Inv st /\ Coupled st /\ (st Core = Absent -> st Cmd = Absent).
+(* ------------------------------------------------------------------ completed commands in an unchanged world:
+   coredata.dat holds exactly what cmd_line.txt and the world reproduce *)
+Definition Good (w : world) (st : fs) : Prop :=
+  Inv st /\ (st Core = Absent -> st Cmd = Absent) /\
+  (forall s, st Core = Whole (CStore s) ->
+     exists r nfr, st Cmd = Whole (CRec r nfr) /\ forall key, s key = resolve w nfr r key).
 
-Lemma Good_empty : Good empty_fs.
-Proof. split; [apply Inv_empty|]. split; [intros l H; discriminate|auto]. Qed.
+Lemma Good_empty : forall w, Good w empty_fs.
+Proof. intro w. split; [apply Inv_empty|]. split; [auto|intros s H; discriminate]. Qed.
 
-Lemma good_of_final : forall fin l r,
-  fin Core = Whole (CStore l) -> fin Cmd = Whole (CRec r) ->
-  (forall key, value l key = value r key) -> Good fin.
+Lemma good_of_final : forall w fin s r nf,
+  fin Core = Whole (CStore s) -> fin Cmd = Whole (CRec r nf) ->
+  (forall key, s key = resolve w nf r key) -> Good w fin.
 Proof.
-  intros fin l r A B V. split; [split; [right; eexists; eauto|right; eexists; eauto]|].
+  intros w fin s r nf A B V. split; [split; [right; eexists; eauto|right; eexists; eexists; eauto]|].
   split.
-  - intros l' H key. rewrite A in H. inversion H; subst. rewrite B. cbn [rec_of]. apply V.
   - intro H. rewrite A in H. discriminate.
+  - intros s' H. rewrite A in H. inversion H; subst. exists r, nf. auto.
 Qed.
 
-Lemma value_ext_app : forall a b D, (forall k, value a k = value b k) ->
-  forall k, value (a ++ D) k = value (b ++ D) k.
-Proof. intros a b D H k. rewrite !value_app. destruct (alookup k D); auto. Qed.
-
-Lemma value_dup : forall r D k, value (r ++ (r ++ D)) k = value (r ++ D) k.
+Lemma override_resolve : forall w b s r D, (forall k, s k = resolve w b r k) ->
+  forall key, override s D key = resolve w b (r ++ D) key.
 Proof.
-  intros r D k. rewrite (value_app k r (r ++ D)), alookup_app, (value_app k r D).
-  destruct (alookup k D); auto. unfold value. destruct (alookup k r); reflexivity.
+  intros w b s r D H key. unfold override. destruct (alookup key D) as [v|] eqn:K.
+  - rewrite (resolve_app_some w b r D key v K). reflexivity.
+  - rewrite (resolve_app_none w b r D key K). apply H.
 Qed.
 
-Lemma alookup_In_val : forall k l v, alookup k l = Some v -> In (k, v) l.
+Lemma not_dirty_value : forall s D key v, dirty s D = false -> alookup key D = Some v -> s key = v.
 Proof.
-  intros k l; induction l as [|[k' v'] l IH]; intros v H; simpl in H; [discriminate|].
-  destruct (alookup k l) eqn:E.
-  - inversion H; subst. right; auto.
-  - destruct (k =? k') eqn:K; [|discriminate]. apply N.eqb_eq in K; subst. inversion H; subst. left; auto.
-Qed.
-
-Lemma not_dirty_value : forall l D key v, dirty l D = false -> alookup key D = Some v -> value l key = v.
-Proof.
-  intros l D key v Hd Hk. apply alookup_In_val in Hk.
+  intros s D key v Hd Hk. apply alookup_In_val in Hk.
   unfold dirty in Hd.
-  destruct (value l key =? v) eqn:E; [apply N.eqb_eq; auto|].
-  assert (X : existsb (fun kv => negb (value l (fst kv) =? snd kv)) D = true).
+  destruct (s key =? v) eqn:E; [apply N.eqb_eq; auto|].
+  assert (X : existsb (fun kv => negb (s (fst kv) =? snd kv)) D = true).
   { apply existsb_exists. exists (key, v). split; auto. simpl. rewrite E. reflexivity. }
   congruence.
 Qed.
 
-Lemma setup_like_final : forall e D st, atomic_cmd e = true -> Inv st ->
-  let fin := run_ops (fst (setup_like e D st)) st in
-  fin Core = Whole (CStore (sl_store D st)) /\ fin Cmd = Whole (CRec (sl_rec D st)).
-Proof. intros e D st Ha HI fin. subst fin. rewrite setup_like_Inv by auto. apply body_final; auto. Qed.
+Lemma setup_like_final : forall e w D nf st, atomic_cmd e = true -> Inv st ->
+  let fin := run_ops (fst (setup_like e w D nf st)) st in
+  fin Core = Whole (CStore (sl_store w D nf st)) /\
+  fin Cmd = Whole (CRec (fst (sl_rec D nf st)) (snd (sl_rec D nf st))).
+Proof. intros e w D nf st Ha HI fin. subst fin. rewrite setup_like_Inv by auto. apply body_final; auto. Qed.
 
-Lemma sl_coupled : forall D st, Good st ->
-  forall key, value (sl_store D st) key = value (sl_rec D st) key.
+Lemma sl_coupled : forall w D nf st, Good w st ->
+  forall key, sl_store w D nf st key = resolve w (snd (sl_rec D nf st)) (fst (sl_rec D nf st)) key.
 Proof.
-  intros D st [[Hc Hm] [Cp Ab]] key. unfold sl_store, sl_rec.
-  destruct Hc as [Hc|[l Hc]]; rewrite Hc.
-  - rewrite (Ab Hc). reflexivity.
-  - specialize (Cp l Hc). destruct Hm as [Hm|[r Hm]]; rewrite Hm in *; cbn [rec_of] in Cp.
-    + change D with ([] ++ D) at 2. apply value_ext_app; auto.
-    + apply value_ext_app; auto.
+  intros w D nf st [[Hc Hm] [Ab Cp]] key. unfold sl_store, sl_rec.
+  destruct Hc as [Hc|[s Hc]].
+  - rewrite (Ab Hc), Hc. reflexivity.
+  - destruct (Cp s Hc) as [r [nfr [Hr V]]]. rewrite Hc, Hr. cbn [fst snd].
+    apply override_resolve; auto.
 Qed.
 
-Lemma setup_like_Good : forall e D st, atomic_cmd e = true -> Good st ->
-  Good (run_ops (fst (setup_like e D st)) st).
+Lemma setup_like_Good : forall e w D nf st, atomic_cmd e = true -> Good w st ->
+  Good w (run_ops (fst (setup_like e w D nf st)) st).
 Proof.
-  intros e D st Ha G. destruct (setup_like_final e D st Ha (proj1 G)) as [A B].
+  intros e w D nf st Ha G. destruct (setup_like_final e w D nf st Ha (proj1 G)) as [A B].
   eapply good_of_final; eauto. apply sl_coupled; auto.
 Qed.
 
-Lemma configure_Good : forall e D st, atomic_cmd e = true -> Good st ->
-  Good (run_ops (fst (configure_plan e D st)) st).
+Lemma configure_Good : forall e w D cc st, atomic_cmd e = true -> core_first e = false -> Good w st ->
+  Good w (run_ops (fst (configure_plan e D cc st)) st).
 Proof.
-  intros e D st Ha G. pose proof G as [HI [Cp Ab]].
-  destruct (configure_plan_cases e D st HI) as [E|[E|[l [Hc E]]]]; rewrite E; cbn [fst]; auto.
-  destruct (configure_final e D st l Ha Hc) as [A B].
-  eapply good_of_final; eauto. intro key.
-  specialize (Cp l Hc).
-  assert (R : cf_rec D st = rec_of (st Cmd) ++ D).
-  { unfold cf_rec. destruct HI as [_ [Hm|[r Hm]]]; rewrite Hm; reflexivity. }
-  rewrite R. destruct (dirty l D) eqn:Hd.
-  - apply value_ext_app; auto.
-  - rewrite value_app. destruct (alookup key D) as [v|] eqn:K; auto.
-    eapply not_dirty_value; eauto.
+  intros e w D cc st Ha Hf G. pose proof G as [HI [Ab Cp]].
+  destruct (configure_plan_cases e D cc st HI Hf) as [E|[E|[[s0 [HD [Hc E]]]|[s0 [Hc E]]]]]; rewrite E; cbn [fst]; auto.
+  - destruct (saving_final e (override s0 D) st) as [A B].
+    destruct (Cp s0 Hc) as [r [nfr [Hr V]]].
+    eapply good_of_final; [exact A|rewrite B; exact Hr|].
+    intro key. subst D. apply V.
+  - set (b := dirty s0 D || cc).
+    destruct (configure_final e (fst (cf_rec D st)) (snd (cf_rec D st)) s0 (override s0 D) st b Ha Hc) as [A B].
+    destruct (Cp s0 Hc) as [r [nfr [Hr V]]].
+    eapply good_of_final; eauto. intro key.
+    unfold cf_rec. rewrite Hr. cbn [fst snd].
+    destruct b eqn:Hb.
+    + apply override_resolve; auto.
+    + subst b. apply orb_false_iff in Hb as [Hd _].
+      destruct (alookup key D) as [v|] eqn:K.
+      * rewrite (resolve_app_some w nfr r D key v K). eapply not_dirty_value; eauto.
+      * rewrite (resolve_app_none w nfr r D key K). apply V.
 Qed.
 
-Lemma wipe_Good : forall e D order st, fixed e -> Good st ->
-  Good (run_ops (fst (wipe_plan e D order st)) st).
+Lemma Good_view : forall w st st', st' Core = st Core -> st' Cmd = st Cmd -> Good w st -> Good w st'.
 Proof.
-  intros e D order st [Ha Hk] G. pose proof G as [HI [Cp Ab]].
-  destruct (wipe_plan_fixed e D order st Hk HI) as [E|E]; rewrite E; cbn [fst]; auto.
+  intros w st st' A B [[Hc Hm] [Ab Cp]]. unfold Good, Inv. rewrite A, B. auto.
+Qed.
+
+Lemma wipe_Good : forall e w D nf order st, fixed e -> Good w st ->
+  Good w (run_ops (fst (wipe_plan e w D nf order st)) st).
+Proof.
+  intros e w D nf order st [Ha [Hk Hf]] G. pose proof G as [HI [Ab Cp]].
+  destruct (wipe_plan_fixed e w D nf order st Hk HI) as [E|E]; rewrite E; cbn [fst]; auto.
   set (del := deletions e order st). set (st1 := run_ops del st).
-  set (D' := rec_of (st Cmd) ++ D).
+  set (D' := fst (rec_of (st Cmd)) ++ D). set (nf' := nf || snd (rec_of (st Cmd))).
   assert (Hdel : forallb is_del del = true) by (apply deletions_is_del; auto).
   assert (I1 : Inv st1) by (apply dels_Inv; auto).
   rewrite run_app. fold st1.
-  destruct (setup_like_final e D' st1 Ha I1) as [A B].
-  eapply good_of_final; eauto. intro key.
   destruct (dels_run del st Hdel) as [Bm Bc]. fold st1 in Bm, Bc.
-  unfold sl_store, sl_rec. rewrite Bm.
-  destruct Bc as [Bc|Bc]; rewrite Bc.
-  - (* coredata.dat was not in the listing *)
-    destruct HI as [[Hc|[l Hc]] Hm']; rewrite Hc; [reflexivity|].
-    specialize (Cp l Hc).
-    destruct Hm' as [Hm|[r Hm]]; rewrite Hm in *; cbn [rec_of] in Cp.
-    + change D' with ([] ++ D') at 2. apply value_ext_app; auto.
-    + apply value_ext_app; auto.
-  - reflexivity.
+  destruct Bc as [Bc|Bc].
+  - (* coredata.dat was not in the listing: a re-configuration of a good directory *)
+    apply setup_like_Good; auto. apply (Good_view w st); auto.
+  - destruct (setup_like_final e w D' nf' st1 Ha I1) as [A B].
+    eapply good_of_final; eauto. intro key.
+    unfold sl_store, sl_rec. rewrite Bc, Bm.
+    destruct HI as [_ [Hm|[r [nfr Hm]]]]; rewrite Hm; reflexivity.
 Qed.
 
-Lemma exec_Good : forall e c st, fixed e -> Good st -> Good (exec e c st).
+Lemma exec_Good : forall e w c st, fixed e -> Good w st -> Good w (exec e w c st).
 Proof.
-  intros e c st He G. unfold exec, ops_of. pose proof He as [Ha Hk].
-  destruct c as [D|D|D order|D]; cbn [plan_of].
+  intros e w c st He G. unfold exec, ops_of. pose proof He as [Ha [Hk Hf]].
+  destruct c as [D nf|D|D nf order|D cc]; cbn [plan_of].
   - destruct (exists_ (st Core)).
     + destruct D as [|d D]; [exact G|apply configure_Good; auto].
     + apply setup_like_Good; auto.
@@ -958,38 +1027,40 @@ Proof.
   - apply configure_Good; auto.
 Qed.
 
-Definition completed (ev : event) : bool := match ev with Ran _ => true | _ => false end.
+(* a history of commands that all ran to completion in the world w (nothing outside the build directory
+   was edited in between) *)
+Definition completed_in (w : world) (h : list event) : Prop :=
+  Forall (fun ev => exists c, ev = Ran w c) h.
 
-Lemma completed_Good_from : forall e h st0, fixed e -> forallb completed h = true -> Good st0 ->
-  Good (fold_left (step e) h st0).
+Lemma completed_Good_from : forall e w h st0, fixed e -> completed_in w h -> Good w st0 ->
+  Good w (fold_left (step e) h st0).
 Proof.
-  intros e h; induction h as [|ev h IH]; intros st0 He Hm G; [exact G|].
-  simpl in Hm. apply andb_true_iff in Hm as [H1 H2]. simpl. apply IH; auto.
-  destruct ev as [c|c k|f t]; simpl in *; try discriminate. apply exec_Good; auto.
+  intros e w h; induction h as [|ev h IH]; intros st0 He Hc G; [exact G|].
+  inversion Hc as [|x l [c Hx] Hl]; subst. simpl. apply IH; auto. apply exec_Good; auto.
 Qed.
 
-Lemma completed_meson : forall h, forallb completed h = true -> forallb meson_event h = true.
+Lemma completed_meson : forall w h, completed_in w h -> forallb meson_event h = true.
 Proof.
-  induction h as [|ev h IH]; simpl; auto. intro H. apply andb_true_iff in H as [H1 H2].
-  rewrite IH by auto. destruct ev; simpl in *; auto; discriminate.
+  intros w h H; induction H as [|ev h [c Hx] Hl IH]; simpl; auto. subst. simpl. exact IH.
 Qed.
 
-Lemma Good_guard : forall c st, Good st -> guard c st = true.
+Lemma Good_guard : forall w c st, Good w st -> guard w c st = true.
 Proof.
-  intros c st [HI [Cp Ab]]. destruct c; simpl; auto. unfold coupled_on.
-  destruct (st Core) as [| |[l|r|]] eqn:Hc; auto.
-  apply forallb_forall. intros kv _. apply N.eqb_eq. apply Cp; auto.
+  intros w c st [HI [Ab Cp]]. destruct c; simpl; auto. unfold coupled_on.
+  destruct (st Core) as [| |[s|r n|]] eqn:Hc; auto.
+  destruct (Cp s eq_refl) as [r [nfr [Hr V]]]. rewrite Hr. cbn [rec_of fst snd].
+  apply forallb_forall. intros k _. apply N.eqb_eq. apply V.
 Qed.
 
-(* full strength on directories whose earlier commands all ran to completion *)
-Theorem old_or_new_completed_histories : forall e h c k, fixed e -> forallb completed h = true ->
-  old_or_new e (run_history e h) c k.
+(* full strength on directories whose earlier commands all ran to completion in the current world *)
+Theorem old_or_new_completed_histories : forall e w h c k, fixed e -> completed_in w h ->
+  old_or_new e w (run_history e h) c k.
 Proof.
-  intros e h c k He Hc. apply old_or_new_guarded; auto using completed_meson.
+  intros e w h c k He Hc. apply old_or_new_guarded; eauto using completed_meson.
   apply Good_guard. apply completed_Good_from; auto using Good_empty.
 Qed.
 
-(* ------------------------------------------------------------------ after the follow-up every state file is whole *)
+
 Lemma flat_map_notouch_in : forall (blk : N -> list op) f l,
   (forall i, In i l -> notouch f (blk i) = true) -> notouch f (flat_map blk l) = true.
 Proof.
@@ -1048,11 +1119,11 @@ Qed.
 Lemma save_build_final : forall e s, run_ops (save_build e) s BuildDat = Whole CBlob.
 Proof. intros; unfold save_build; rewrite !run_app; simpl; apply upd_same. Qed.
 
-Lemma body_whole : forall e l r st f, atomic_cmd e = true -> In f (state_files e) ->
-  whole (run_ops (mkdirs st ++ body e l r st) st f) = true.
+Lemma body_whole : forall e l r nf st f, atomic_cmd e = true -> In f (state_files e) ->
+  whole (run_ops (mkdirs st ++ body e l r nf st) st f) = true.
 Proof.
-  intros e l r st f Ha Hf.
-  destruct (body_final e l r st Ha) as [FC FM].
+  intros e l r nf st f Ha Hf.
+  destruct (body_final e l r nf st Ha) as [FC FM].
   unfold state_files in Hf. cbn [app In] in Hf.
   destruct Hf as [<-|[<-|[<-|[<-|Hf]]]].
   - rewrite FC; reflexivity.
@@ -1086,66 +1157,84 @@ Proof.
       rewrite intro_final by auto. reflexivity.
 Qed.
 
-Theorem recover_leaves_state_files_whole : forall e h c k f, fixed e -> forallb meson_event h = true ->
+Theorem recover_leaves_state_files_whole : forall e h w c k f, fixed e -> forallb meson_event h = true ->
   In f (state_files e) ->
-  whole (snd (recover e (crash e k c (run_history e h))) f) = true.
+  whole (snd (recover e w (crash e w k c (run_history e h))) f) = true.
 Proof.
-  intros e h c k f He Hm Hf. set (s := crash e k c (run_history e h)).
+  intros e h w c k f He Hm Hf. set (s := crash e w k c (run_history e h)).
   assert (HI : Inv s) by (apply crash_Inv; auto; apply history_Inv; auto).
   unfold recover, exec, ops_of. cbn [snd]. rewrite followup_plan, setup_like_Inv by auto. cbn [fst].
   apply body_whole; auto. apply He.
 Qed.
 
 (* ------------------------------------------------------------------ witnesses *)
+Definition w0 : world := {| decl := fun _ => 0; mfile := [] |}.
+(* the same project after its declared defaults were edited *)
+Definition w_edited : world := {| decl := fun _ => 5; mfile := [] |}.
 Definition e_fixed : env :=
-  {| dats := [0]; infos := [0]; cinfos := [0]; chunks := 0; atomic_cmd := true; keep_cmd := true |}.
-(* the tree before pending/C09-cmdline-atomic-write.diff *)
+  {| dats := [0]; infos := [0]; cinfos := [0]; chunks := 0; atomic_cmd := true; keep_cmd := true; core_first := false |}.
+(* the tree before fa5f5e3 (cmd_line.txt written in place) *)
 Definition e_inplace : env :=
-  {| dats := [0]; infos := [0]; cinfos := [0]; chunks := 0; atomic_cmd := false; keep_cmd := true |}.
-(* the tree before pending/C09-wipe-keep-cmdline.diff *)
+  {| dats := [0]; infos := [0]; cinfos := [0]; chunks := 0; atomic_cmd := false; keep_cmd := true; core_first := false |}.
+(* the tree before 80cc784 (--wipe keeps cmd_line.txt only in a temporary directory) *)
 Definition e_tmpwipe : env :=
-  {| dats := [0]; infos := [0]; cinfos := [0]; chunks := 0; atomic_cmd := true; keep_cmd := false |}.
+  {| dats := [0]; infos := [0]; cinfos := [0]; chunks := 0; atomic_cmd := true; keep_cmd := false; core_first := false |}.
+(* a hypothetical tree in which `meson configure` writes coredata.dat before cmd_line.txt *)
+Definition e_corefirst : env :=
+  {| dats := [0]; infos := [0]; cinfos := [0]; chunks := 0; atomic_cmd := true; keep_cmd := true; core_first := true |}.
 
-(* cmd_line.txt written in place: `meson configure -Dk0=2` killed after open(O_TRUNC), before the
-   write: the follow-up `meson setup --reconfigure` dies with an internal Python error *)
 Lemma inplace_cmdline_refuted :
-  fst (recover e_inplace (crash e_inplace 1 (Configure [(0, 2)])
-                                (run_history e_inplace [Ran (Setup [(0, 1)])]))) = PyErr.
+  fst (recover e_inplace w0 (crash e_inplace w0 1 (Configure [(0, 2)] false)
+                                (run_history e_inplace [Ran w0 (Setup [(0, 1)] false)]))) = PyErr.
 Proof. vm_compute. reflexivity. Qed.
 
-(* --wipe keeping cmd_line.txt only in a temporary directory: killed after coredata.dat and
-   cmd_line.txt are deleted (mutation 4): the follow-up reports the default, neither old nor new *)
-Lemma tmpdir_wipe_refuted :
-  ~ old_or_new e_tmpwipe (run_history e_tmpwipe [Ran (Setup [(0, 1)])]) (Wipe [] [Core; Cmd]) 4.
-Proof.
-  intros [vo [vn [vk [A [B [C V]]]]]].
-  vm_compute in A. vm_compute in B. vm_compute in C.
-  inversion A; inversion B; inversion C; subst. specialize (V 0). vm_compute in V.
+Ltac refute :=
+  let vo := fresh in let vn := fresh in let vk := fresh in
+  let A := fresh in let B := fresh in let C := fresh in let V := fresh in
+  intros [vo [vn [vk [A [B [C V]]]]]];
+  vm_compute in A; vm_compute in B; vm_compute in C;
+  inversion A; inversion B; inversion C; subst; specialize (V 0); vm_compute in V;
   destruct V; discriminate.
-Qed.
+
+Lemma tmpdir_wipe_refuted :
+  ~ old_or_new e_tmpwipe w0 (run_history e_tmpwipe [Ran w0 (Setup [(0, 1)] false)]) (Wipe [] false [Core; Cmd]) 4.
+Proof. refute. Qed.
 
 (* fixed tree, but an EARLIER command was killed between its two renames:
    `meson configure -Dk0=2` killed after cmd_line.txt was replaced and before coredata.dat was
    (the follow-up keeps k0=1); then `meson setup --wipe -Dk0=3` killed after coredata.dat is
    deleted: the follow-up reports k0=2 — neither 1 (old) nor 3 (new) *)
 Definition h_killed_configure : list event :=
-  [Ran (Setup [(0, 1)]); Killed (Configure [(0, 2)]) 3].
+  [Ran w0 (Setup [(0, 1)] false); Killed w0 (Configure [(0, 2)] false) 3].
 Lemma after_kills_wipe_refuted :
   forallb meson_event h_killed_configure = true /\
-  ~ old_or_new e_fixed (run_history e_fixed h_killed_configure) (Wipe [(0, 3)] [Core]) 1.
-Proof.
-  split; [reflexivity|].
-  intros [vo [vn [vk [A [B [C V]]]]]].
-  vm_compute in A. vm_compute in B. vm_compute in C.
-  inversion A; inversion B; inversion C; subst. specialize (V 0). vm_compute in V.
-  destruct V; discriminate.
-Qed.
+  ~ old_or_new e_fixed w0 (run_history e_fixed h_killed_configure) (Wipe [(0, 3)] false [Core]) 1.
+Proof. split; [reflexivity|refute]. Qed.
 
-(* the guard is satisfiable by a non-trivial input (and false on the witness above) *)
+(* no kill before, but the project's declared default of k0 was edited (0 -> 5) after the first setup:
+   `meson setup --wipe -Dk0=3` killed after coredata.dat is deleted: the follow-up reports 5 *)
+Lemma after_edit_wipe_refuted :
+  completed_in w0 [Ran w0 (Setup [] false)] /\
+  ~ old_or_new e_fixed w_edited (run_history e_fixed [Ran w0 (Setup [] false)]) (Wipe [(0, 3)] false [Core]) 1.
+Proof. split; [repeat constructor; eexists; reflexivity|refute]. Qed.
+
+(* would `meson configure` writing coredata.dat BEFORE cmd_line.txt repair the finding?  No: the same two
+   kills then leave the state ahead of the record (coredata k0=2, cmd_line.txt k0=1) and the wipe window
+   reports k0=1 — neither 2 (old) nor 3 (new) *)
+Definition h_killed_configure_corefirst : list event :=
+  [Ran w0 (Setup [(0, 1)] false); Killed w0 (Configure [(0, 2)] false) 9].
+Lemma corefirst_does_not_help :
+  run_history e_corefirst h_killed_configure_corefirst Cmd = Whole (CRec [(0, 1)] false) /\
+  ~ old_or_new e_corefirst w0 (run_history e_corefirst h_killed_configure_corefirst) (Wipe [(0, 3)] false [Core]) 1.
+Proof. split; [vm_compute; reflexivity|refute]. Qed.
+
+(* the guard is satisfiable by a non-trivial input (and false on the witnesses above) *)
 Example guard_satisfiable :
-  guard (Wipe [(0, 3)] [Core]) (run_history e_fixed [Ran (Setup [(0, 1)]); Killed (Reconf [(1, 1)]) 9]) = true /\
-  guard (Wipe [(0, 3)] [Core]) (run_history e_fixed h_killed_configure) = false.
-Proof. split; vm_compute; reflexivity. Qed.
+  guard w0 (Wipe [(0, 3)] true [Core]) (run_history e_fixed [Ran w0 (Setup [(0, 1)] false); Killed w0 (Reconf [(1, 1)]) 9]) = true /\
+  guard w0 (Wipe [(0, 3)] false [Core]) (run_history e_fixed h_killed_configure) = false /\
+  guard w_edited (Wipe [(0, 3)] false [Core]) (run_history e_fixed [Ran w0 (Setup [] false)]) = false /\
+  guard w_edited (Wipe [(1, 3)] false [Core]) (run_history e_fixed [Ran w0 (Setup [(1, 2)] false)]) = true.
+Proof. repeat split; vm_compute; reflexivity. Qed.
 
 Lemma fixed_e_fixed : fixed e_fixed.
-Proof. split; reflexivity. Qed.
+Proof. repeat split; reflexivity. Qed.
